@@ -197,11 +197,19 @@ func TestConcurrentHistories(t *testing.T) {
 		w.Put(resetEvent{Ev: "reset", Kek: 1, Via: map[bool]string{true: "http", false: "db"}[httpMode]})
 		var wg sync.WaitGroup
 		start := make(chan struct{})
+		var seqMu sync.Mutex
+		seqOf := map[string]int64{}
 		if !realFile {
 			sys.Sink.mu.Lock()
+			sys.Sink.SlowSync = true
 			sys.Sink.tap = func(p []byte) {
 				// called with the sink lock held: the position in the log is the position of the append
 				ae, err := parseAuditLine(d, p)
+				if err == nil {
+					seqMu.Lock()
+					seqOf[ae.Who] = sys.Sink.Seq()
+					seqMu.Unlock()
+				}
 				if err != nil || !bytes.HasSuffix(p, []byte("\n")) || bytes.Count(p, []byte("\n")) != 1 {
 					res.Violate("audit-garbled", fmt.Sprintf("audit sink received a write that is not one complete JSON line: %q", p), nil)
 					return
@@ -219,6 +227,16 @@ func TestConcurrentHistories(t *testing.T) {
 					be := beginEvent{Ev: "begin", Cl: p.cl, Op: c.Op, Who: c.Who, Rules: c.Rules, Name: c.Name, Val: c.Val, Ver: c.Ver}
 					log.add(be)
 					out := sys.DoConc(c)
+					if !realFile {
+						// the record this call wrote (if any) must be covered by a sync that began after it was written
+						seqMu.Lock()
+						mine := seqOf[c.Who]
+						seqMu.Unlock()
+						if dur := sys.Sink.Durable(); mine > dur {
+							res.Violate("audit-unsynced "+c.Op, fmt.Sprintf("%s by %s returned (class %s) while its audit record (#%d) was not yet covered by a completed sync "+
+								"(synced up to #%d): a crash now loses the record of a request that was served", c.Op, c.Who, out.Class, mine, dur), nil)
+						}
+					}
 					if out.Class == "panic" {
 						res.Violate("panic "+c.Op, fmt.Sprintf("%s panicked: %v", c.Op, out.Notes), nil)
 					}
